@@ -33,11 +33,12 @@ Definition do_pattern (u : list label) (cur s : str) : str :=
   | None => L "err"
   | Some p =>
       let pr := print_pattern p in
-      let re := match parse_pattern cur pr with
-                | None => L "reparse-err"
-                | Some p' => matchvec p' u
-                end in
-      tabs [L "ok"; hex (pprefix p); hex (ptarget p); b01 (prec p); hex pr; matchvec p u; re]
+      let '(re, rp) := match parse_pattern cur pr with
+                       | None => (L "reparse-err", L "reparse-err")
+                       | Some p' => (matchvec p' u,
+                                     hex (pprefix p') ++ L ":" ++ hex (ptarget p') ++ L ":" ++ b01 (prec p'))
+                       end in
+      tabs [L "ok"; hex (pprefix p); hex (ptarget p); b01 (prec p); hex pr; matchvec p u; re; rp]
   end.
 
 (* List.assoc on the file table: first entry wins; a path that is not listed does not exist *)
